@@ -1,6 +1,8 @@
 package gengorums
 
 import (
+	"sort"
+
 	"google.golang.org/protobuf/compiler/protogen"
 )
 
@@ -10,7 +12,13 @@ func GenerateDevFiles(gen *protogen.Plugin, file *protogen.File) {
 	if !gorumsGuard(file) {
 		return
 	}
+	// sort the gorums types so that the files are generated in the same order on every run
+	gorumsTypes := make([]string, 0, len(gorumsCallTypesInfo))
 	for gorumsType := range gorumsCallTypesInfo {
+		gorumsTypes = append(gorumsTypes, gorumsType)
+	}
+	sort.Strings(gorumsTypes)
+	for _, gorumsType := range gorumsTypes {
 		generateDevFile(gen, file, gorumsType)
 	}
 }
